@@ -12,29 +12,11 @@
 #include <shark/ObjectiveFunctions/Regularizer.h>
 #include <shark/Models/LinearModel.h>
 #include <shark/Core/OpenMP.h>
-#include "common.hpp"
+#include "c06_common.hpp"
+#include <shark/ObjectiveFunctions/Loss/AbsoluteLoss.h>
+#include <shark/ObjectiveFunctions/Loss/DiscreteLoss.h>
 #include <cfenv>
 using namespace shark;
-
-static bool parseDy(std::string const& t, double& out){
-	std::size_t s = t.find('/');
-	try{
-		long long a = std::stoll(t.substr(0, s)); long long k = (s == std::string::npos) ? 0 : std::stoll(t.substr(s+1));
-		out = std::ldexp((double)a, -(int)k); return true;
-	}catch(...){ return false; }
-}
-static std::vector<std::vector<std::string> > sections(std::string const& line){
-	std::vector<std::vector<std::string> > r(1);
-	for(std::string const& w: vh::tokens(line)){ if(w == "|") r.push_back(std::vector<std::string>()); else r.back().push_back(w); }
-	return r;
-}
-static bool nums(std::vector<std::string> const& t, std::vector<double>& o){ o.clear(); for(auto const& w: t){ double x; if(!parseDy(w, x)) return false; o.push_back(x); } return true; }
-static std::string showMat(RealMatrix const& g){
-	std::string s;
-	for(std::size_t i = 0; i != g.size1(); ++i){ if(i) s += ";"; for(std::size_t j = 0; j != g.size2(); ++j){ if(j) s += ","; s += vh::exactDouble(g(i,j)); } }
-	return s;
-}
-static std::string showVec(RealVector const& g){ std::string s; for(std::size_t j = 0; j != g.size(); ++j){ if(j) s += ","; s += vh::exactDouble(g(j)); } return s; }
 
 // value of the single-element interface summed over the batch, and gradient rows: the
 // independent oracle for "batch = sum of per-element losses" and "derivative call returns eval's value"
@@ -52,8 +34,53 @@ std::string oracle(AbstractLoss<LT,RealVector> const& loss, Labels const& labels
 	if(hasDeriv){
 		RealMatrix g; double v = loss.evalDerivative(labels, preds, g);
 		if(std::fabs(v - batchValue) > tol) bad += " !oracle derivative-call-value-differs-from-eval";
+		// the single-element derivative interface (own code in CrossEntropy, batch-of-one wrapper elsewhere):
+		// same value as the single-element eval, and the batch gradient is made of the per-element gradients
+		double sd = 0; bool rowsOk = g.size1() == preds.size1() && g.size2() == preds.size2();
+		for(std::size_t i = 0; i != preds.size1() && rowsOk; ++i){
+			RealVector p = row(preds, i), gi;
+			LT li = getBatchElement(labels, i);
+			double vi = loss.evalDerivative(li, p, gi);
+			if(std::fabs(vi - loss.eval(li, p)) > tol) bad += " !oracle element-derivative-call-value-differs-from-element-eval", rowsOk = false;
+			sd += vi;
+			if(gi.size() != g.size2()){ rowsOk = false; break; }
+			for(std::size_t j = 0; j != gi.size(); ++j) if(!(gi(j) == g(i,j)) && !(std::isnan(gi(j)) && std::isnan(g(i,j)))){ bad += " !oracle batch-gradient-row-differs-from-element-gradient"; rowsOk = false; break; }
+		}
+		if(g.size1() != preds.size1() || g.size2() != preds.size2()) bad += " !oracle gradient-shape";
 	}
 	return bad;
+}
+
+// exact/independent per-loss reference of the *value* from its textbook definition (not the library code):
+// rows are evaluated in long double, so an error in a branch of the library shows as a clear difference
+static std::string refValue(std::string const& loss, std::vector<double> const& par, std::vector<double> const& labs, RealMatrix const& P, bool cls, double v){
+	std::size_t n = P.size1(), m = P.size2();
+	long double s = 0;
+	for(std::size_t i = 0; i != n; ++i){
+		long double r = 0;
+		if(loss == "squared"){ for(std::size_t j = 0; j != m; ++j){ long double d = labs[i*m+j] - (long double)P(i,j); r += d*d; } r *= 0.5L; }
+		else if(loss == "absolute"){ for(std::size_t j = 0; j != m; ++j){ long double d = labs[i*m+j] - (long double)P(i,j); r += d*d; } r = std::sqrt(r); }
+		else if(loss == "squaredclass"){ for(std::size_t j = 0; j != m; ++j){ long double d = ((j == (std::size_t)labs[i]) ? 1.0L : 0.0L) - (long double)P(i,j); r += d*d; } r *= 0.5L; }
+		else if(loss == "hinge" || loss == "sqhinge"){
+			bool sq = loss == "sqhinge";
+			if(m == 1){ long double y = 2*labs[i]-1, h = std::max(0.0L, 1 - y*(long double)P(i,0)); r = sq ? 0.5L*h*h : h; }
+			else for(std::size_t o = 0; o != m; ++o){ if(o == (std::size_t)labs[i]) continue; long double h = std::max(0.0L, 1 - 0.5L*((long double)P(i,(std::size_t)labs[i]) - P(i,o))); r += sq ? 0.5L*h*h : h; }
+		}
+		else if(loss == "epshinge"){ for(std::size_t j = 0; j != m; ++j) r += std::max(0.0L, std::fabs(labs[i*m+j] - (long double)P(i,j)) - par[0]); }
+		else if(loss == "sqepshinge"){ for(std::size_t j = 0; j != m; ++j){ long double d = labs[i*m+j] - (long double)P(i,j); r += d*d; } r = 0.5L*std::max(0.0L, r - (long double)par[0]*par[0]); }
+		else if(loss == "huber"){ for(std::size_t j = 0; j != m; ++j){ long double d = labs[i*m+j] - (long double)P(i,j); r += d*d; } long double dl = par[0]; r = (r <= dl*dl) ? 0.5L*r : dl*std::sqrt(r) - 0.5L*dl*dl; }
+		else if(loss == "crossentropy"){
+			if(m == 1){ long double y = 2*labs[i]-1, z = -y*(long double)P(i,0); r = z > 40 ? z + std::log1p(std::exp(-z)) : std::log1p(std::exp(z)); }
+			else { long double mx = P(i,0); for(std::size_t j = 1; j != m; ++j) mx = std::max(mx, (long double)P(i,j)); long double se = 0; for(std::size_t j = 0; j != m; ++j) se += std::exp((long double)P(i,j) - mx); r = std::log(se) + mx - P(i,(std::size_t)labs[i]); }
+		}
+		else if(loss == "crossentropysoft"){ long double mx = P(i,0); for(std::size_t j = 1; j != m; ++j) mx = std::max(mx, (long double)P(i,j)); long double se = 0, tp = 0; for(std::size_t j = 0; j != m; ++j){ se += std::exp((long double)P(i,j) - mx); tp += labs[i*m+j]*(long double)P(i,j); } r = std::log(se) + mx - tp; }
+		else return "";
+		s += r;
+	}
+	(void)cls;
+	long double tol = 1e-9L * (1 + std::fabs((long double)v));
+	if(!(std::fabs(s - (long double)v) <= tol)) return " !oracle value-differs-from-definition";
+	return "";
 }
 
 int main(){
@@ -64,6 +91,90 @@ int main(){
 		if(secs.size() == 1 && secs[0].size() == 2 && secs[0][0] == "mode"){ floatMode = secs[0][1] == "float"; std::cout << "ok\n"; continue; }
 		std::vector<double> par, labs, prs; std::vector<std::size_t> dims;
 		std::string out = "bad-op";
+		if(c06b_dispatch(secs, floatMode, out)){ std::cout << out << "\n"; continue; }
+		if(secs.size() == 5 && secs[0].size() == 2 && secs[0][0] == "hess" && vh::allNat(secs[2], 0, dims) && dims.size() == 2 && nums(secs[3], labs) && nums(secs[4], prs) && labs.size() == 1 && prs.size() == dims[1]){
+			// second-derivative overload of CrossEntropy (single element), reached through the AbstractLoss interface
+			CrossEntropy<unsigned int, RealVector> ce; AbstractLoss<unsigned int, RealVector> const& base = ce;
+			RealVector p(prs.size()); for(std::size_t j = 0; j != prs.size(); ++j) p(j) = prs[j];
+			RealVector g; RealMatrix H; unsigned int c = (unsigned int)labs[0];
+			try{
+				double v = base.evalDerivative(c, p, g, H);
+				out = "V=" + vh::exactDouble(v) + " G=" + showVec(g) + " H=" + showMat(H);
+				RealVector g1; double v1 = ce.evalDerivative(c, p, g1);
+				if(v != v1) out += " !oracle second-derivative-call-value-differs-from-first-derivative-call";
+				for(std::size_t j = 0; j != g.size() && j != g1.size(); ++j) if(g(j) != g1(j)){ out += " !oracle second-derivative-call-gradient-differs"; break; }
+			}catch(shark::Exception const&){
+				out = "unavailable !oracle F-C06-2-second-derivative-overload-unreachable";
+			}
+			std::cout << out << "\n"; continue;
+		}
+		if(secs.size() == 5 && secs[0].size() == 2 && (secs[0][1] == "discrete" || secs[0][1] == "balanced" || secs[0][1] == "zeroonelabel") && vh::allNat(secs[2], 0, dims) && dims.size() == 2 && nums(secs[1], par)){
+			std::vector<std::size_t> lc, pc;
+			std::size_t n = dims[0], k = dims[1];
+			if(vh::allNat(secs[3], 0, lc) && vh::allNat(secs[4], 0, pc) && lc.size() == n && pc.size() == n){
+				UIntVector Lb(n), Pb(n); for(std::size_t i = 0; i != n; ++i){ Lb(i) = (unsigned)lc[i]; Pb(i) = (unsigned)pc[i]; }
+				double v = 0, direct = 0; bool ok = true;
+				if(secs[0][1] == "zeroonelabel"){
+					ZeroOneLoss<unsigned int> l; AbstractLoss<unsigned int, unsigned int> const& bl = l; v = l.eval(Lb, Pb);
+					for(std::size_t i = 0; i != n; ++i){ direct += (lc[i] != pc[i]); }
+					double se = 0; for(std::size_t i = 0; i != n; ++i) se += bl.eval(Lb(i), Pb(i));
+					if(se != v) out = "x !oracle batch-differs-from-sum-of-elements", ok = false;
+				}else{
+					RealMatrix cost(k, k, 0.0);
+					if(secs[0][1] == "discrete"){
+						if(par.size() != k*k) ok = false;
+						else for(std::size_t a = 0; a != k; ++a) for(std::size_t b = 0; b != k; ++b) cost(a,b) = par[a*k+b];
+					}
+					if(ok){
+						DiscreteLoss l(cost);
+						if(secs[0][1] == "balanced"){
+							Data<unsigned int> d(1); d.batch(0) = Lb; l.defineBalancedCost(d);
+							std::vector<std::size_t> freq(k, 0); for(std::size_t i = 0; i != n; ++i) freq[lc[i]]++;
+							for(std::size_t a = 0; a != k; ++a) for(std::size_t b = 0; b != k; ++b) cost(a,b) = (a == b) ? 0.0 : (freq[a] == 0 ? 1.0 : double(n) / double(k*freq[a]));
+						}
+						v = l.eval(Lb, Pb);
+						for(std::size_t i = 0; i != n; ++i) direct += cost(lc[i], pc[i]);
+						AbstractLoss<unsigned int, unsigned int> const& bl = l; double se = 0; for(std::size_t i = 0; i != n; ++i) se += bl.eval(Lb(i), Pb(i));
+						if(se != v) out = "x !oracle batch-differs-from-sum-of-elements", ok = false;
+					}
+				}
+				if(ok){ out = "V=" + vh::exactDouble(v); if(v != direct) out += " !oracle value-differs-from-definition"; }
+			}
+			std::cout << out << "\n"; continue;
+		}
+		if(secs.size() == 5 && secs[0].size() == 2 && secs[0][0] == "seq" && nums(secs[3], labs) && nums(secs[4], prs)){
+			// seq eval|deriv | ignore dim | lengths | labels flat | predictions flat : SquaredLoss<Sequence,Sequence>
+			std::vector<std::size_t> id, lens;
+			if(vh::allNat(secs[1], 0, id) && id.size() == 2 && vh::allNat(secs[2], 0, lens)){
+				std::size_t ignore = id[0], d = id[1], tot = 0; for(std::size_t x: lens) tot += x;
+				if(labs.size() == tot*d && prs.size() == tot*d){
+					std::vector<Sequence> Lb(lens.size()), Pb(lens.size()); std::size_t pos = 0;
+					for(std::size_t i = 0; i != lens.size(); ++i) for(std::size_t j = 0; j != lens[i]; ++j, ++pos){
+						RealVector a(d), b(d); for(std::size_t q = 0; q != d; ++q){ a(q) = labs[pos*d+q]; b(q) = prs[pos*d+q]; }
+						Lb[i].push_back(a); Pb[i].push_back(b);
+					}
+					SquaredLoss<Sequence,Sequence> l(ignore);
+					try{
+						std::feclearexcept(FE_ALL_EXCEPT);
+						double v = l.eval(Lb, Pb); std::vector<Sequence> G; double vd = l.evalDerivative(Lb, Pb, G);
+						bool inexact = std::fetestexcept(FE_INEXACT) != 0;
+						if(secs[0][1] == "deriv"){
+							out = "V=" + vh::exactDouble(vd) + " G=";
+							for(std::size_t i = 0; i != G.size(); ++i){ if(i) out += "/"; for(std::size_t j = 0; j != G[i].size(); ++j){ if(j) out += ";"; out += showVec(G[i][j]); } }
+						}else out = "V=" + vh::exactDouble(v);
+						double tol = floatMode ? 1e-12*(1+std::fabs(v)) : 0.0;
+						if(std::fabs(v - vd) > tol) out += " !oracle derivative-call-value-differs-from-eval";
+						AbstractLoss<Sequence,Sequence> const& bl = l; double se = 0; for(std::size_t i = 0; i != Lb.size(); ++i) se += bl.eval(static_cast<Sequence const&>(Lb[i]), static_cast<Sequence const&>(Pb[i]));
+						if(std::fabs(se - v) > tol) out += " !oracle batch-differs-from-sum-of-elements";
+						long double direct = 0; pos = 0;
+						for(std::size_t i = 0; i != lens.size(); ++i) for(std::size_t j = 0; j != lens[i]; ++j, ++pos) if(j >= ignore) for(std::size_t q = 0; q != d; ++q){ long double df = labs[pos*d+q] - (long double)prs[pos*d+q]; direct += 0.5L*df*df; }
+						if(std::fabs(direct - (long double)v) > 1e-9L*(1+std::fabs(direct))) out += " !oracle value-differs-from-definition";
+						if(!floatMode && inexact) out += " !oracle inexact-in-exact-mode";
+					}catch(shark::Exception const&){ out = "exception"; }
+				}
+			}
+			std::cout << out << "\n"; continue;
+		}
 		if(secs.size() == 5 && secs[0].size() == 2 && vh::allNat(secs[2], 0, dims) && dims.size() == 2 && nums(secs[1], par) && nums(secs[4], prs)){
 			std::string kind = secs[0][0], loss = secs[0][1];
 			std::size_t n = dims[0], m = dims[1];
@@ -80,6 +191,7 @@ int main(){
 					if(deriv && HASD) v = lo.evalDerivative(LABELS, P, G); else v = lo.eval(LABELS, P); \
 					bool inexact = std::fetestexcept(FE_INEXACT) != 0; \
 					orc = oracle(lo, LABELS, P, lo.eval(LABELS, P), HASD, !floatMode); \
+					if(n && m) orc += refValue(loss, par, labs, P, clsLabels, lo.eval(LABELS, P)); \
 					if(!floatMode && inexact) orc += " !oracle inexact-in-exact-mode"; \
 					for(std::size_t gi = 0; gi != G.size1(); ++gi) for(std::size_t gj = 0; gj != G.size2(); ++gj) if(!std::isfinite(G(gi,gj))){ orc += " !oracle non-finite-gradient"; gi = G.size1() - 1; break; } }
 				if(loss == "squared" && vecLabels){ SquaredLoss<> l; RUN(l, L, true) }
@@ -90,6 +202,8 @@ int main(){
 				else if(loss == "sqepshinge" && vecLabels){ SquaredEpsilonHingeLoss l(par.empty() ? 0.0 : par[0]); RUN(l, L, true) }
 				else if(loss == "huber" && vecLabels){ HuberLoss l(par.empty() ? 1.0 : par[0]); RUN(l, L, true) }
 				else if(loss == "crossentropy" && clsLabels){ CrossEntropy<unsigned int, RealVector> l; RUN(l, C, true) }
+				else if(loss == "absolute" && vecLabels){ AbsoluteLoss<> l; RUN(l, L, false) }
+				else if(loss == "crossentropysoft" && vecLabels){ CrossEntropy<RealVector, RealVector> l; RUN(l, L, true) }
 				else if(loss == "zeroone" && clsLabels){ ZeroOneLoss<unsigned int, RealVector> l(par.empty() ? 0.0 : par[0]); RUN(l, C, false) }
 				else ok = false;
 				if(ok){
